@@ -255,7 +255,11 @@ def check_overlap(case):
             return [fail("exception/%s/%s" % (r.type, r.frame), repr(r))], {"labels": labels, "nontrivial": True}
     ba = np.asarray(ba, dtype=float)
     bb = np.asarray(bb, dtype=float)
-    ov = bool(np.all(ba[:, 0] <= bb[:, 1]) and np.all(ba[:, 1] >= bb[:, 0]))
+    # the common point is certified within 1e-9*L only (two coplanar disks
+    # whose planes are 5e-78 apart "share" it): the boxes must overlap within
+    # the same slack
+    slack = 1e-9 * tr["L"]
+    ov = bool(np.all(ba[:, 0] <= bb[:, 1] + slack) and np.all(ba[:, 1] >= bb[:, 0] - slack))
     if not ov:
         fails.append(fail("overlap-discarded/" + tag,
                           "colliders share the point %r but their AABBs do not overlap" % (tr["common"].tolist(),),
